@@ -650,6 +650,9 @@ func runSurvive(e *ev.Env) {
 	// an error handler that calls c.Method() (say, to log) on a request with an unknown method
 	// that fasthttp itself rejects (body over the limit): index out of range [-1] in App.method
 	one("errhandler-method-unknown-method-body-too-large", appOpts{kind: cfgErrSink}, []byte("BREW /ks HTTP/1.1\r\nHost: x\r\nContent-Length: 99999999\r\n\r\n"), 0)
+	one("malformed-request-line-with-word-timeout", appOpts{}, []byte("GET /ks/timeout HTTX/1.1\r\nHost: x\r\n\r\n"), 400)
+	one("malformed-header-after-keep-alive-timeout", appOpts{}, []byte("GET /ks HTTP/1.1\r\nHost: x\r\nKeep-Alive: timeout=5, max=100\r\nX(A): v\r\n\r\n"), 400)
+	one("oversized-head-after-keep-alive-timeout", appOpts{kind: cfgReadBuf}, get("/ks?rid=c9", "Keep-Alive: timeout=5, max=100\r\n", "Cookie: pad="+strings.Repeat("p", 700)+"\r\n"), 431)
 	one("head-body-too-large", appOpts{}, []byte("HEAD /ks HTTP/1.1\r\nHost: x\r\nContent-Length: 99999999\r\n\r\n"), 0)
 	flashReq := func(v []byte) []byte {
 		return append(append([]byte("GET /ks?rid=c5 HTTP/1.1\r\nHost: x\r\nCookie: fiber_flash="), v...), "\r\n\r\n"...)
@@ -739,11 +742,24 @@ func runSurvive(e *ev.Env) {
 	})
 }
 
+// vocabularyToken returns the first word of the error vocabulary (fixed order) found in raw.
+func vocabularyToken(raw []byte) string {
+	for _, t := range []string{"timeout", "Timeout", "exceeds", "too large", "unsupported", "cannot find", "error when reading", "small read buffer", "EOF", "reset by peer", "broken pipe", "GetOnly", "non-GET"} {
+		if bytes.Contains(raw, []byte(t)) {
+			return t
+		}
+	}
+	return ""
+}
+
 // surviveOne judges one raw single request (corpus).
 func surviveOne(e *ev.Env, c *ev.Case, o appOpts, raw []byte, wantStatus int) {
 	q := &rq{Expect: wantStatus}
 	if wantStatus != 0 {
-		q.Class = "corpus"
+		q.Class = map[int]string{400: "bad-request-line", 431: "header-too-large", 413: "body-too-large", 501: "unknown-method"}[wantStatus]
+		if q.Class == "" {
+			q.Class = "corpus"
+		}
 	}
 	surviveCase(e, c, o, []*rq{q}, raw, false, nil)
 }
@@ -849,7 +865,18 @@ func surviveCase(e *ev.Env, c *ev.Case, o appOpts, reqs []*rq, raw []byte, mutat
 		if q.Class != "" && q.Expect != 0 {
 			e.Stat("class_"+q.Class, 1)
 			svSeen.class++
-			if r.Status != q.Expect {
+			if tok := vocabularyToken(raw); r.Status != q.Expect && tok != "" {
+				// the connection's bytes (fasthttp's error text quotes the read buffer) contain a
+				// word of the error vocabulary and the class is not answered as mapped: own
+				// signature, named after the first such word in a fixed order
+				cls := q.Class
+				if q.Expect == 400 {
+					cls = "malformed-request"
+				}
+				e.Violation(c, "mapped-status|"+cls+"-answered-"+itoa(r.Status)+"|request-bytes-contain-"+strings.ToLower(wordSlug(tok)),
+					"request of class "+q.Class+" must be answered "+itoa(q.Expect)+", got "+itoa(r.Status)+"; the bytes sent contain "+strconv.Quote(tok),
+					map[string]any{"config": cfg, "input": show(raw), "input_hex": hexOf(raw), "index": i, "body": show(r.Body), "word": tok})
+			} else if r.Status != q.Expect {
 				e.Violation(c, "status|"+q.Class+"|got-"+itoa(r.Status), "request of class "+q.Class+" must be answered "+itoa(q.Expect)+", got "+itoa(r.Status),
 					map[string]any{"config": cfg, "input": show(raw), "input_hex": hexOf(raw), "index": i, "body": show(r.Body)})
 			}
